@@ -83,7 +83,7 @@ theorem C06_das_is_full (fmt : Int → Str) (ds cds : Dataset) (q : Str) (h : co
     pairs the i-th row-major index tuple of the declared shape with the i-th value of the data
     response, and drops none. -/
 theorem C06_ascii_complete (fmt : Int → Str) (id : Str) (b : Base) (h : b.WF) (hs : b.shape ≠ []) :
-    asciiBase fmt id b = .ok (id ++ ['\n'] ++ asciiLines fmt b.shape b.data) ∧
+    asciiBase fmt id b = .ok (id ++ ['\n'] ++ asciiLines fmt b.srep b.shape b.data) ∧
     (List.zip (ndindex b.shape) b.data).map Prod.snd = wireValues (.base b) ∧
     (List.zip (ndindex b.shape) b.data).map Prod.fst = ndindex b.shape ∧
     (ndindex b.shape).length = prod b.shape := by
@@ -192,14 +192,69 @@ theorem C06_arrayterator_strided_not_numpy :
     (w.get s).pos 10 = [2, 6] ∧ (w.get s).count = 2 ∧
     (sel w.count s).filterMap (fun j => (w.pos 10)[j]?) = [3, 7] := Win.get_strided_not_numpy
 
-/-- **Strings are printed quoted, one per index tuple**: the ASCII lines of an array of strings pair
+/-- **Strings are printed quoted, one per index tuple**: the ASCII lines of an array of strings (held as `str`) pair
     the row-major index tuples with the strings between double quotes -/
 theorem C06_ascii_strings_quoted (fmt : Int → Str) (sh : List Nat) (ss : List Str) :
-    asciiLines fmt sh (ss.map .str)
+    asciiLines fmt .str sh (ss.map .str)
       = (List.zip (ndindex sh) ss).flatMap fun p => idxText p.1 ++ [' '] ++ (['"'] ++ p.2 ++ ['"']) ++ ['\n'] := by
   unfold asciiLines
   rw [List.zip_map_right, List.flatMap_map]
   rfl
+
+/-- **The ASCII response prints the strings the data response carries, whether the source holds them as `str` or as
+    `bytes`** (numpy dtype `U` / `S`; `lib.encode` and `_basetype` dispatch on the Python type of the element): for
+    either representation and every list of ASCII strings, (1) the ASCII lines pair the row-major index tuples with
+    the strings themselves between double quotes — `encode` decodes a `bytes` element before it quotes it —,
+    (2) a 0-d String is printed the same way, and (3) the bytes `_basetype` puts on the wire for a word are the
+    characters of the string, so the data response carries exactly what the ASCII response prints. -/
+theorem C06_ascii_prints_strings (fmt : Int → Str) (rep : StrRep) (sh : List Nat) (ss : List Str)
+    (hascii : ∀ s ∈ ss, ∀ c ∈ s, c.toNat < 128) :
+    asciiLines fmt rep sh (ss.map .str)
+      = ((List.zip (ndindex sh) ss).flatMap fun p => idxText p.1 ++ [' '] ++ (['"'] ++ p.2 ++ ['"']) ++ ['\n']) ∧
+    (∀ s ∈ ss, encode fmt rep (.str s) = ['"'] ++ s ++ ['"']) ∧
+    (∀ s, wordBytes rep s = strBytes s) ∧
+    (∀ (t : Xdr.Ty) (v : Val), xValR rep t v = xVal t v) := by
+  have hdec : ∀ s : Str, (∀ c ∈ s, c.toNat < 128) → decodeAscii s = s := by
+    intro s hs
+    induction s with
+    | nil => rfl
+    | cons c cs ih =>
+      have hc : c.toNat < 128 := hs c (by simp)
+      have := ih (fun x hx => hs x (by simp [hx]))
+      simp only [decodeAscii, List.flatMap_cons, hc, if_true] at this ⊢
+      rw [this]; rfl
+  have henc : ∀ s ∈ ss, encode fmt rep (.str s) = ['"'] ++ s ++ ['"'] := by
+    intro s hs
+    cases rep with
+    | str => rfl
+    | bytes => simp only [encode, hdec s (hascii s hs)]
+  refine ⟨?_, henc, wordBytes_eq rep, xValR_eq rep⟩
+  unfold asciiLines
+  rw [List.zip_map_right, List.flatMap_map]
+  apply flatMap_congr_mem
+  intro p hp
+  simp only [Prod.map, id, henc p.2 (List.of_mem_zip hp).2]
+
+/-- whole variable, either representation: the ASCII answer of a well-formed String array is its id and those lines -/
+theorem C06_ascii_prints_string_array (fmt : Int → Str) (id : Str) (b : Base) (ss : List Str) (h : b.WF)
+    (hs : b.shape ≠ []) (hd : b.data = ss.map .str) (hascii : ∀ s ∈ ss, ∀ c ∈ s, c.toNat < 128) :
+    asciiBase fmt id b = .ok (id ++ ['\n'] ++
+      ((List.zip (ndindex b.shape) ss).flatMap fun p => idxText p.1 ++ [' '] ++ (['"'] ++ p.2 ++ ['"']) ++ ['\n'])) := by
+  rw [(C06_ascii_complete fmt id b h hs).1, hd, (C06_ascii_prints_strings fmt b.srep b.shape ss hascii).1]
+
+/-- **what the two repairs changed** (3c6bfd0, 4256c07): before them a `bytes` element was printed as the text of
+    its Python literal (`"b'one'"` where the data response carries `one`), and an empty `bytes` word was sent as one
+    NUL byte after the length word 0 (the stream shifted by one byte); for `str` elements nothing changed -/
+theorem C06_ascii_bytes_pinned_refuted (fmt : Int → Str) :
+    encodePinned fmt .bytes (.str cs!"one") = cs!"\"b'one'\"" ∧
+    encode fmt .bytes (.str cs!"one") = cs!"\"one\"" ∧
+    wordBytesPinned .bytes [] = [0] ∧ wordBytes .bytes [] = [] ∧
+    (∀ v, encodePinned fmt .str v = encode fmt .str v) ∧ (∀ s, wordBytesPinned .str s = wordBytes .str s) := by
+  refine ⟨rfl, rfl, rfl, rfl, ?_, fun _ => rfl⟩
+  intro v; cases v <;> rfl
+
+/-- a byte outside ASCII in a `bytes` element is printed as its `\xhh` escape (`backslashreplace`), never raised on -/
+example : encode intText .bytes (.str [Char.ofNat 0xE9, 'a']) = cs!"\"\\xe9a\"" := by decide
 
 /-- **the data response is C05's body of the constrained dataset**, byte for byte: declaration,
     `Data:\n`, `dods()` of the declaration and data the DDS / ASCII printers were given
@@ -295,7 +350,7 @@ theorem C06_string_wire (b : Base) (s : Str) (hty : tyOf b.ty = .string) (hs : b
     payloadBase b = Pydap.XdrSpec.encString (strBytes s) := by
   have hB : Xdr.wireStr .string ≠ "B" := by decide
   have hC : Xdr.wireChar .string = 'S' := by decide
-  simp [payloadBase, tmplOfBase, dataOfBase, hs, hd, hty, Xdr.encImpl, Xdr.encBase, Xdr.encElems, hB, hC,
+  simp [payloadBase, tmplOfBase, dataOfBase, xValR_fun, xValR_eq, hs, hd, hty, Xdr.encImpl, Xdr.encBase, Xdr.encElems, hB, hC,
     xVal, Xdr.strField, Xdr.lengthWord_eq, Pydap.XdrSpec.encString, Pydap.XdrSpec.word]
 
 /-- a member of a Structure nested in a Structure is printed under its full id by the ASCII
